@@ -78,6 +78,11 @@ pub enum HOp {
     TriplesBySubject(usize, u8),
     DbIterEdges,
     DbGetNode(usize),
+    /// two-hop chain (factorized expand); an edge may be used for both hops, as the engine does
+    TwoHop(usize),
+    /// aggregates directly over a two-hop chain (factorized aggregate path of the planner)
+    TwoHopCount(usize),
+    TwoHopSum(usize),
     // ---- further mutation routes ----
     CypherCreate(usize, u8, u8, i64),
     /// not generated: on this tree `MATCH ()-[r]->() WHERE id(r) = x DELETE r` deletes the *node*
@@ -140,6 +145,9 @@ impl HOp {
             HOp::TriplesBySubject(..) => "sparql-bound-subject",
             HOp::DbIterEdges => "db.iter_edges",
             HOp::DbGetNode(_) => "db.get_node",
+            HOp::TwoHop(_) => "two-hop",
+            HOp::TwoHopCount(_) => "two-hop-count",
+            HOp::TwoHopSum(_) => "two-hop-sum",
             HOp::CypherCreate(..) => "cypher-CREATE",
             HOp::DeleteEdgeQ(..) => "DELETE-edge",
             HOp::DeleteNodePlainQ(..) => "DELETE-node",
@@ -176,6 +184,9 @@ impl HOp {
                 | HOp::TriplesBySubject(..)
                 | HOp::DbIterEdges
                 | HOp::DbGetNode(_)
+                | HOp::TwoHop(_)
+                | HOp::TwoHopCount(_)
+                | HOp::TwoHopSum(_)
         )
     }
     fn session(&self) -> Option<usize> {
@@ -185,7 +196,7 @@ impl HOp {
             HOp::SetPropQ(s, ..) | HOp::SetEdgePropQ(s, ..) | HOp::RemovePropQ(s, ..) | HOp::AddLabelQ(s, ..) | HOp::RemoveLabelQ(s, ..) | HOp::DeleteNodeQ(s, ..) => Some(*s),
             HOp::TripleInsert(s, _) | HOp::TripleDelete(s, _) => Some(*s),
             HOp::LabelScan(s, _) | HOp::AllScan(s) | HOp::Expand(s) | HOp::Count(s) | HOp::GetNode(s, _) | HOp::GetEdge(s, _) | HOp::NodeExists(s, _) | HOp::NodesBatch(s, _) | HOp::NeighborsOut(s, _) | HOp::Triples(s) => Some(*s),
-            HOp::CypherLabelScan(s, _) | HOp::ParamsLabelScan(s, _) | HOp::GremlinLabel(s, _) | HOp::GremlinOut(s) | HOp::GraphqlLabel(s, _) | HOp::SumCount(s) | HOp::FilterGt(s, _) | HOp::EdgeCount(s) => Some(*s),
+            HOp::CypherLabelScan(s, _) | HOp::ParamsLabelScan(s, _) | HOp::GremlinLabel(s, _) | HOp::GremlinOut(s) | HOp::GraphqlLabel(s, _) | HOp::SumCount(s) | HOp::FilterGt(s, _) | HOp::EdgeCount(s) | HOp::TwoHop(s) | HOp::TwoHopCount(s) | HOp::TwoHopSum(s) => Some(*s),
             HOp::GetNodeProp(s, ..) | HOp::NeighborsIn(s, _) | HOp::NeighborsOutByType(s, _) | HOp::EdgeExists(s, _) | HOp::Degree(s, _) | HOp::TriplesBySubject(s, _) => Some(*s),
             HOp::CypherCreate(s, ..) | HOp::DeleteEdgeQ(s, _) | HOp::DeleteNodePlainQ(s, _) => Some(*s),
             _ => None,
@@ -429,6 +440,24 @@ pub fn spec_observe(st: &SState, op: &HOp) -> Vec<String> {
         HOp::TriplesBySubject(_, b) => st.triples.iter().filter(|t| (**t & 1) == (*b & 1)).map(|t| format!("t{t}")).collect(),
         HOp::DbIterEdges => st.edges.keys().map(|e| format!("e{e}")).collect(),
         HOp::DbGetNode(s) => vec![st.nodes.get(s).map_or("none".to_string(), |n| node_row(&format!("n{s}"), &n.labels, &n.props))],
+        HOp::TwoHop(_) | HOp::TwoHopCount(_) | HOp::TwoHopSum(_) => {
+            let mut rows = Vec::new();
+            let (mut cnt, mut sum) = (0i64, 0i64);
+            for (r, x) in &st.edges {
+                for (s2, y) in &st.edges {
+                    if x.dst == y.src {
+                        rows.push(format!("n{}-e{r}->n{}-e{s2}->n{}", x.src, x.dst, y.dst));
+                        cnt += 1;
+                        sum += st.nodes.get(&y.dst).and_then(|n| n.props.get("k")).copied().unwrap_or(0);
+                    }
+                }
+            }
+            match op {
+                HOp::TwoHop(_) => rows,
+                HOp::TwoHopCount(_) => vec![format!("{cnt}")],
+                _ => vec![format!("{sum}")],
+            }
+        }
         _ => vec![],
     };
     out.sort();
@@ -458,6 +487,9 @@ macro_rules! system {
                 pub db: GrafeoDB,
                 pub sessions: Vec<Option<Session>>,
                 pub ids: IdMap,
+                /// for the two-hop observations: the answer derived from this system's own
+                /// single-hop expand answer, taken in the same step by the same session
+                pub side: Option<Vec<String>>,
             }
 
             fn val_i(v: &Value) -> Option<i64> {
@@ -471,7 +503,7 @@ macro_rules! system {
                 pub fn new(n_sessions: usize) -> Sys {
                     let db = GrafeoDB::new_in_memory();
                     let sessions = (0..n_sessions).map(|_| Some(db.session())).collect();
-                    Sys { db, sessions, ids: IdMap::default() }
+                    Sys { db, sessions, ids: IdMap::default(), side: None }
                 }
 
                 fn n(&self, id: u64) -> String {
@@ -793,6 +825,41 @@ macro_rules! system {
                             Some(id) => vec![self.node_obj(&self.db.get_node(NodeId::new(id)))],
                             None => vec!["none".into()],
                         },
+                        HOp::TwoHop(s) | HOp::TwoHopCount(s) | HOp::TwoHopSum(s) => {
+                            let sess = self.sessions[*s].as_ref().unwrap();
+                            let g = |r: &Vec<Value>, i: usize| r.get(i).and_then(val_i).unwrap_or(-1) as u64;
+                            // single-hop answer of the same session at the same instant
+                            let hop = q(sess, "MATCH (a)-[r]->(b) RETURN id(a), id(r), id(b), b.k");
+                            let answer = match op {
+                                HOp::TwoHop(_) => q(sess, "MATCH (a)-[r]->(b)-[s]->(c) RETURN id(a), id(r), id(b), id(s), id(c)").map(|rows| {
+                                    let mut out: Vec<String> = rows.iter().map(|r| format!("{}-{}->{}-{}->{}", self.n(g(r, 0)), self.e(g(r, 1)), self.n(g(r, 2)), self.e(g(r, 3)), self.n(g(r, 4)))).collect();
+                                    out.sort();
+                                    out
+                                }),
+                                HOp::TwoHopCount(_) => q(sess, "MATCH (a)-[]->(b)-[]->(c) RETURN count(c)").map(|rows| vec![rows.first().and_then(|r| r.first()).and_then(val_i).map_or("?".to_string(), |v| v.to_string())]),
+                                _ => q(sess, "MATCH (a)-[]->(b)-[]->(c) RETURN sum(c.k)").map(|rows| vec![rows.first().and_then(|r| r.first()).and_then(val_i).map_or("?".to_string(), |v| v.to_string())]),
+                            };
+                            self.side = hop.ok().map(|h| {
+                                let mut rows = Vec::new();
+                                let (mut cnt, mut sum) = (0i64, 0i64);
+                                for x in &h {
+                                    for y in &h {
+                                        if g(x, 2) == g(y, 0) {
+                                            rows.push(format!("{}-{}->{}-{}->{}", self.n(g(x, 0)), self.e(g(x, 1)), self.n(g(x, 2)), self.e(g(y, 1)), self.n(g(y, 2))));
+                                            cnt += 1;
+                                            sum += y.get(3).and_then(val_i).unwrap_or(0);
+                                        }
+                                    }
+                                }
+                                rows.sort();
+                                match op {
+                                    HOp::TwoHop(_) => rows,
+                                    HOp::TwoHopCount(_) => vec![format!("{cnt}")],
+                                    _ => vec![format!("{sum}")],
+                                }
+                            });
+                            answer.unwrap_or_else(|e| vec![e])
+                        }
                         HOp::LabelScan(s, l) => match q(self.sessions[*s].as_ref().unwrap(), &format!("MATCH (n:{}) RETURN id(n), labels(n), n.k, n.m", LABELS[*l as usize % 3])) {
                             Ok(rows) => self.node_rows(&rows),
                             Err(e) => vec![e],
@@ -1349,8 +1416,15 @@ pub fn exec(cfg: &Config, ops: &[HOp]) -> ExecResult {
                     // A deviation that is byte-for-byte the pinned tree's own answer on this
                     // history is identified by access path and reader context; any other
                     // deviation carries its anomaly class and is never listed as known.
+                    let two_hop = matches!(op, HOp::TwoHop(_) | HOp::TwoHopCount(_) | HOp::TwoHopSum(_));
                     let sig = if r_real == r_pin {
                         format!("C01 | path={} | reader={reader} | answer-as-pinned-tree", op.kind())
+                    } else if two_hop && real.side.as_ref() == Some(&r_real) {
+                        // the pinned tree's factorized chain differs from the working tree's by a
+                        // repair (034eb0a), so it cannot classify these paths; a two-hop answer
+                        // that is exactly the join of the same session's single-hop expand answer
+                        // at the same instant inherits that path's (listed) deviation and nothing else
+                        format!("C01 | path={} | reader={reader} | equals-join-of-own-single-hop-expand", op.kind())
                     } else {
                         format!("C01 | path={} | reader={reader} | anomaly={why} | differs-from-pinned-tree", op.kind())
                     };
@@ -1618,7 +1692,7 @@ impl Gen<'_> {
         let rng = &mut *self.rng;
         if rng.chance(2, 5) {
             // the further access paths: other languages, aggregates, direct accessors
-            return match rng.below(16) {
+            return match rng.below(19) {
                 0 => HOp::CypherLabelScan(s, rng.below(3) as u8),
                 1 => HOp::ParamsLabelScan(s, rng.below(3) as u8),
                 2 => HOp::GremlinLabel(s, rng.below(3) as u8),
@@ -1634,6 +1708,9 @@ impl Gen<'_> {
                 12 => HOp::Degree(s, rng.usize(all_n)),
                 13 => HOp::TriplesBySubject(s, rng.below(2) as u8),
                 14 => HOp::DbIterEdges,
+                15 => HOp::TwoHop(s),
+                16 => HOp::TwoHopCount(s),
+                17 => HOp::TwoHopSum(s),
                 _ => HOp::DbGetNode(rng.usize(all_n)),
             };
         }
